@@ -16,7 +16,7 @@ pub fn atoms_count(d: u32) -> u64 {
 
 /// complex selectors with function nesting depth <= d
 pub fn sel_count(d: u32) -> u64 {
-    atoms_count(d) * 17
+    atoms_count(d) * 21
 }
 
 fn push_simple(sh: &mut Sheet, k: u64, ctx: &str) {
@@ -91,17 +91,23 @@ pub fn push_sel(sh: &mut Sheet, d: u32, idx: u64, base_ctx: &str, fdepth: u32) {
         return;
     }
     let idx = idx - a;
-    // 16 * a combinations: side (base first / base last) x base (2) x combinator (4) x atom
+    // 20 * a combinations: side (base first / base last) x base (2) x joiner (5: none = one compound selector, then the 4 combinators) x atom
     let atom = idx % a;
     let k = idx / a;
-    let comb = (k % 4) as usize;
-    let base = (k / 4) % 2;
-    let side = k / 8;
+    let mut comb = (k % 5) as usize;
+    let base = (k / 5) % 2;
+    let side = k / 10;
+    // two simple selectors can be written next to each other unless the second one is a type selector or `*`
+    if comb == 0 && ((side == 0 && (atom == 1 || atom == 5)) || (side == 1 && base == 1)) {
+        comb = 1;
+    }
     let push_comb = |sh: &mut Sheet| {
         if comb == 0 {
+            // compound selector: nothing between the two
+        } else if comb == 1 {
             sh.ws(true, &ctx);
         } else {
-            sh.plain(COMBINATORS[comb], &ctx);
+            sh.plain(COMBINATORS[comb - 1], &ctx);
         }
     };
     if side == 0 {
@@ -287,6 +293,119 @@ pub fn selector_sheet(d: u32, idx: u64, chain: &[usize]) -> Sheet {
     for _ in chain {
         sh.plain("}", "wrapper");
     }
+    sh
+}
+
+// ---------------------------------------------------------------------------------------------
+// statement at-rules whose prelude carries conditions: `@import "a" <conditions>;` compiled WITHOUT an import sign (the rule passes
+// through the generic at-rule path), followed by an ordinary rule. Every sequence of condition pieces up to a length.
+
+pub const STATEMENT_PIECES: &[&str] = &["layer", "layer(a.b)", "supports(selector(.c:not(.d)))", "supports((k:v))", "screen", "(min-width:1px)", "supports(selector(.e .f))", "and"];
+
+fn push_statement_piece(sh: &mut Sheet, k: usize, ctx: &str) {
+    match k {
+        0 => sh.plain("layer", ctx),
+        1 => {
+            // a dot in a layer name does not start a class name
+            for t in ["layer(", "a", ".", "b", ")"] {
+                sh.plain(t, ctx);
+            }
+        }
+        2 => {
+            sh.plain("supports(", ctx);
+            sh.plain("selector(", ctx);
+            sh.plain(".", ctx);
+            sh.push("c", Role::Class, ctx);
+            sh.plain(":", ctx);
+            sh.plain("not(", ctx);
+            sh.plain(".", ctx);
+            sh.push("d", Role::Class, ctx);
+            sh.plain(")", ctx);
+            sh.plain(")", ctx);
+            sh.plain(")", ctx);
+        }
+        3 => {
+            for t in ["supports(", "(", "k", ":", "v", ")", ")"] {
+                sh.plain(t, ctx);
+            }
+        }
+        4 => sh.plain("screen", ctx),
+        5 => {
+            for t in ["(", "min-width", ":", "1px", ")"] {
+                sh.plain(t, ctx);
+            }
+        }
+        6 => {
+            sh.plain("supports(", ctx);
+            sh.plain("selector(", ctx);
+            sh.plain(".", ctx);
+            sh.push("e", Role::Class, ctx);
+            sh.ws(true, ctx);
+            sh.plain(".", ctx);
+            sh.push("f", Role::Class, ctx);
+            sh.plain(")", ctx);
+            sh.plain(")", ctx);
+        }
+        7 => sh.plain("and", ctx),
+        _ => unreachable!(),
+    }
+}
+
+/// number of piece sequences of length 1..=max_len
+pub fn statement_count(max_len: u32) -> u64 {
+    let n = STATEMENT_PIECES.len() as u64;
+    (1..=max_len).map(|l| n.pow(l)).sum()
+}
+
+/// `head`: 0 = `@import "a"`, 1 = `@IMPORT url(a)`, 2 = an unknown statement at-rule `@x`
+pub fn statement_sheet(head: usize, mut i: u64, max_len: u32) -> Sheet {
+    let n = STATEMENT_PIECES.len() as u64;
+    let mut len = 1u32;
+    loop {
+        let c = n.pow(len);
+        if i < c {
+            break;
+        }
+        i -= c;
+        len += 1;
+        assert!(len <= max_len);
+    }
+    let mut sh = Sheet::new();
+    let ctx = "prelude:statement";
+    match head {
+        0 => {
+            sh.plain("@import", ctx);
+            sh.ws(false, ctx);
+            sh.plain("\"a\"", ctx);
+        }
+        1 => {
+            sh.plain("@IMPORT", ctx);
+            sh.ws(false, ctx);
+            sh.plain("url(a)", ctx);
+        }
+        _ => {
+            sh.plain("@x", ctx);
+            sh.ws(false, ctx);
+            sh.plain("y", ctx);
+        }
+    }
+    for _ in 0..len {
+        sh.ws(false, ctx);
+        push_statement_piece(&mut sh, (i % n) as usize, ctx);
+        i /= n;
+    }
+    sh.plain(";", ctx);
+    // an ordinary rule behind it: whatever state the prelude left must not leak
+    sh.plain(".", "selector");
+    sh.push("z", Role::Class, "selector");
+    sh.ws(true, "selector");
+    sh.plain(".", "selector");
+    sh.push("y", Role::Class, "selector");
+    sh.plain("{", "rule");
+    sh.plain("k", "decl");
+    sh.plain(":", "decl");
+    sh.plain("v", "value");
+    sh.plain("}", "rule");
     sh
 }
 
